@@ -1,13 +1,16 @@
 #!/bin/sh
-# Builds the shadow Kani bundle: everything is a symlink into the installed bundle except
-# bin/cbmc, which is lib/cbmc_wrapper.py (GOTO-binary relayout, then the real cbmc).
+# Builds the shadow Kani bundle <verif>/.target/kani-home: everything is a symlink into the
+# installed bundle except
+#   bin/cbmc     -> lib/cbmc_wrapper.py   (GOTO-binary relayout, then the real cbmc)
+#   bin/goto-cc  -> lib/gotocc_wrapper.py (with VERIF_KANI_LIB=verif: lib/kani_lib/kani_lib.c instead of Kani's)
 set -e
 V=/verif
 [ -n "$1" ] && V="$1"
 REAL="$HOME/.kani/kani-0.68.0"
 SH="$V/.target/kani-home/kani-0.68.0"
-rm -rf "$V/.target/kani-home"
+rm -rf "$V/.target/kani-home" "$V/.target/kani-home-lib"
 mkdir -p "$SH/bin"
 for f in "$REAL"/*; do b=$(basename "$f"); [ "$b" = bin ] || ln -s "$f" "$SH/$b"; done
-for f in "$REAL"/bin/*; do b=$(basename "$f"); [ "$b" = cbmc ] || ln -s "$f" "$SH/bin/$b"; done
+for f in "$REAL"/bin/*; do b=$(basename "$f"); [ "$b" = cbmc ] || [ "$b" = goto-cc ] || ln -s "$f" "$SH/bin/$b"; done
 ln -s "$V/lib/cbmc_wrapper.py" "$SH/bin/cbmc"
+ln -s "$V/lib/gotocc_wrapper.py" "$SH/bin/goto-cc"
